@@ -25,3 +25,8 @@ try:
     GENERATORS.append(gen_dummy)
 except ImportError:
     pass
+try:
+    from translate_pins import GENERATORS as _PIN_GENS
+    GENERATORS.extend(_PIN_GENS)
+except ImportError:
+    pass
